@@ -1,0 +1,400 @@
+//go:build verif
+
+/*
+ * Atree - Scalable Arrays and Ordered Maps
+ *
+ * Verification hooks.  This file is compiled only with the build tag "verif".
+ * It adds read-only views of internal state and setters for the package-level
+ * settings that are otherwise reachable only from the package's own tests.
+ * It does not change any existing declaration.
+ */
+
+package atree
+
+import (
+	"encoding/binary"
+	"fmt"
+	"sort"
+	"strings"
+)
+
+// VerifSetThreshold sets the slab size threshold (settings.go setThreshold).
+func VerifSetThreshold(threshold uint32) (uint32, uint32, uint32, uint32) {
+	return setThreshold(threshold)
+}
+
+// VerifThresholds returns all derived size limits currently in force.
+func VerifThresholds() (target, minT, maxT, maxInlineArrayElem, maxInlineMapElem, maxInlineMapKey uint32) {
+	return targetThreshold, minThreshold, maxThreshold, maxInlineArrayElementSize, maxInlineMapElementSize, maxInlineMapKeySize
+}
+
+// VerifMaxInlineMapValueSize exposes maxInlineMapValueSize.
+func VerifMaxInlineMapValueSize(keySize uint32) uint32 {
+	return maxInlineMapValueSize(keySize)
+}
+
+// VerifSetMaxCollisionLimitPerDigest sets the per-digest collision limit and returns the previous one.
+func VerifSetMaxCollisionLimitPerDigest(limit uint32) uint32 {
+	old := maxCollisionLimitPerDigest
+	maxCollisionLimitPerDigest = limit
+	return old
+}
+
+// VerifConsts returns the compiled values of the package constants the verification model uses.
+func VerifConsts() map[string]uint64 {
+	return map[string]uint64{
+		"defaultSlabSize":                  uint64(defaultSlabSize),
+		"minSlabSize":                      uint64(minSlabSize),
+		"maxSlabSize":                      uint64(maxSlabSize),
+		"minElementCountInSlab":            uint64(minElementCountInSlab),
+		"SlabAddressLength":                uint64(SlabAddressLength),
+		"SlabIndexLength":                  uint64(SlabIndexLength),
+		"SlabIDLength":                     uint64(SlabIDLength),
+		"versionAndFlagSize":               uint64(versionAndFlagSize),
+		"arraySlabHeaderSize":              uint64(arraySlabHeaderSize),
+		"arrayMetaDataSlabPrefixSize":      uint64(arrayMetaDataSlabPrefixSize),
+		"arrayDataSlabElementHeadSize":     uint64(arrayDataSlabElementHeadSize),
+		"arrayDataSlabPrefixSize":          uint64(arrayDataSlabPrefixSize),
+		"arrayRootDataSlabPrefixSize":      uint64(arrayRootDataSlabPrefixSize),
+		"inlinedTagNumSize":                uint64(inlinedTagNumSize),
+		"inlinedCBORArrayHeadSize":         uint64(inlinedCBORArrayHeadSize),
+		"inlinedExtraDataIndexSize":        uint64(inlinedExtraDataIndexSize),
+		"inlinedCBORValueIDHeadSize":       uint64(inlinedCBORValueIDHeadSize),
+		"inlinedValueIDSize":               uint64(inlinedValueIDSize),
+		"inlinedArrayDataSlabPrefixSize":   uint64(inlinedArrayDataSlabPrefixSize),
+		"maxInlinedExtraDataIndex":         uint64(maxInlinedExtraDataIndex),
+		"digestSize":                       uint64(digestSize),
+		"singleElementPrefixSize":          uint64(singleElementPrefixSize),
+		"inlineCollisionGroupPrefixSize":   uint64(inlineCollisionGroupPrefixSize),
+		"externalCollisionGroupPrefixSize": uint64(externalCollisionGroupPrefixSize),
+		"digestPrefixSize":                 uint64(digestPrefixSize),
+		"elementPrefixSize":                uint64(elementPrefixSize),
+		"hkeyElementsPrefixSize":           uint64(hkeyElementsPrefixSize),
+		"singleElementsPrefixSize":         uint64(singleElementsPrefixSize),
+		"mapSlabHeaderSize":                uint64(mapSlabHeaderSize),
+		"mapMetaDataSlabPrefixSize":        uint64(mapMetaDataSlabPrefixSize),
+		"mapDataSlabPrefixSize":            uint64(mapDataSlabPrefixSize),
+		"mapRootDataSlabPrefixSize":        uint64(mapRootDataSlabPrefixSize),
+		"maxDigestLevel":                   uint64(maxDigestLevel),
+		"inlinedMapDataSlabPrefixSize":     uint64(inlinedMapDataSlabPrefixSize),
+		"linearScanThreshold":              uint64(linearScanThreshold),
+		"maxArrayElementCount":             maxArrayElementCount,
+		"slabIDStorableSize":               uint64(SlabIDStorable{}.ByteSize()),
+		"CBORTagInlinedArray":              uint64(CBORTagInlinedArray),
+		"CBORTagInlinedMap":                uint64(CBORTagInlinedMap),
+		"CBORTagInlinedCompactMap":         uint64(CBORTagInlinedCompactMap),
+		"CBORTagInlineCollisionGroup":      uint64(CBORTagInlineCollisionGroup),
+		"CBORTagExternalCollisionGroup":    uint64(CBORTagExternalCollisionGroup),
+		"CBORTagSlabID":                    uint64(CBORTagSlabID),
+	}
+}
+
+// VerifDeltas returns a copy of the write set (nil value = pending deletion).
+func VerifDeltas(s *PersistentSlabStorage) map[SlabID]Slab {
+	m := make(map[SlabID]Slab, len(s.deltas))
+	for k, v := range s.deltas {
+		m[k] = v
+	}
+	return m
+}
+
+// VerifCache returns a copy of the read cache (nil value = cached deletion).
+func VerifCache(s *PersistentSlabStorage) map[SlabID]Slab {
+	m := make(map[SlabID]Slab, len(s.cache))
+	for k, v := range s.cache {
+		m[k] = v
+	}
+	return m
+}
+
+// VerifTempSlabIndex returns the counter used for temporary (zero-address) slab IDs.
+func VerifTempSlabIndex(s *PersistentSlabStorage) uint64 {
+	return s.tempSlabIndex
+}
+
+// VerifArrayRoot returns the array's current root slab object.
+func VerifArrayRoot(a *Array) ArraySlab { return a.root }
+
+// VerifMapRoot returns the map's current root slab object.
+func VerifMapRoot(m *OrderedMap) MapSlab { return m.root }
+
+// VerifArrayHasParentUpdater reports whether the array has a parent callback.
+func VerifArrayHasParentUpdater(a *Array) bool { return a.parentUpdater != nil }
+
+// VerifMapHasParentUpdater reports whether the map has a parent callback.
+func VerifMapHasParentUpdater(m *OrderedMap) bool { return m.parentUpdater != nil }
+
+// VerifArrayMutableElementIndex renders the array's mutableElementIndex sorted by value ID.
+func VerifArrayMutableElementIndex(a *Array) string {
+	type kv struct {
+		k string
+		v uint64
+	}
+	var l []kv
+	for k, v := range a.mutableElementIndex {
+		l = append(l, kv{verifValueIDString(k), v})
+	}
+	sort.Slice(l, func(i, j int) bool { return l[i].k < l[j].k })
+	var sb strings.Builder
+	for i, e := range l {
+		if i > 0 {
+			sb.WriteByte(',')
+		}
+		fmt.Fprintf(&sb, "%s=%d", e.k, e.v)
+	}
+	return sb.String()
+}
+
+// VerifSlabIDString renders a slab ID as "<address as uint64>.<index as uint64>".
+func VerifSlabIDString(id SlabID) string {
+	return fmt.Sprintf("%d.%d", id.AddressAsUint64(), id.IndexAsUint64())
+}
+
+func verifValueIDString(vid ValueID) string {
+	return fmt.Sprintf("%d.%d",
+		binary.BigEndian.Uint64(vid[:SlabAddressLength]),
+		binary.BigEndian.Uint64(vid[SlabAddressLength:]))
+}
+
+// VerifDescribe renders caller-defined storables and type infos in slab dumps.
+type VerifDescribe struct {
+	Storable func(Storable) string
+	TypeInfo func(TypeInfo) string
+}
+
+func (d *VerifDescribe) storable(s Storable) string {
+	switch x := s.(type) {
+	case nil:
+		return "nil"
+	case SlabIDStorable:
+		return "R" + VerifSlabIDString(SlabID(x))
+	case *ArrayDataSlab:
+		return VerifDumpSlab(x, d)
+	case *MapDataSlab:
+		return VerifDumpSlab(x, d)
+	}
+	if w, ok := s.(WrapperStorable); ok {
+		cs := w.ChildStorables()
+		if len(cs) == 1 {
+			return "W(" + d.sized(cs[0]) + ")"
+		}
+	}
+	if d != nil && d.Storable != nil {
+		return d.Storable(s)
+	}
+	return fmt.Sprintf("%v", s)
+}
+
+func (d *VerifDescribe) sized(s Storable) string {
+	if s == nil {
+		return "0:nil"
+	}
+	return fmt.Sprintf("%d:%s", s.ByteSize(), d.storable(s))
+}
+
+func (d *VerifDescribe) typeInfo(t TypeInfo) string {
+	if t == nil {
+		return "nil"
+	}
+	if d != nil && d.TypeInfo != nil {
+		return d.TypeInfo(t)
+	}
+	return fmt.Sprintf("%v", t)
+}
+
+func verifBool(b bool) string {
+	if b {
+		return "1"
+	}
+	return "0"
+}
+
+// VerifDumpSlab renders one slab (children of index slabs are not followed;
+// inlined slabs are rendered in place) in the canonical form shared with the model:
+//
+//	arr-data  D(id,next,size,count,inl)[T(ty)][e1,e2,...]     e = <size>:<desc>
+//	arr-meta  M(id,size,count)[T(ty)]{id/size/count;...}{s1,s2,...}
+//	map-data  d(id,next,size,first,inl,any,grp)[T(ty,count,seed)]<elements>
+//	map-meta  m(id,size,first)[T(ty,count,seed)]{id/size/first;...}
+//	elements  H(level,size){k1,k2,...}[el ...]  |  L(level,size)[el ...]
+//	element   S(size,k,v) | I(size,<elements>) | X(size,id)
+//	storable  V(id,<size>:<desc>)
+func VerifDumpSlab(s Slab, d *VerifDescribe) string {
+	var sb strings.Builder
+	switch x := s.(type) {
+	case *ArrayDataSlab:
+		fmt.Fprintf(&sb, "D(%s,%s,%d,%d,%s)",
+			VerifSlabIDString(x.header.slabID), VerifSlabIDString(x.next),
+			x.header.size, x.header.count, verifBool(x.inlined))
+		if x.extraData != nil {
+			fmt.Fprintf(&sb, "T(%s)", d.typeInfo(x.extraData.TypeInfo))
+		}
+		sb.WriteByte('[')
+		for i, e := range x.elements {
+			if i > 0 {
+				sb.WriteByte(',')
+			}
+			sb.WriteString(d.sized(e))
+		}
+		sb.WriteByte(']')
+	case *ArrayMetaDataSlab:
+		fmt.Fprintf(&sb, "M(%s,%d,%d)", VerifSlabIDString(x.header.slabID), x.header.size, x.header.count)
+		if x.extraData != nil {
+			fmt.Fprintf(&sb, "T(%s)", d.typeInfo(x.extraData.TypeInfo))
+		}
+		sb.WriteByte('{')
+		for i, h := range x.childrenHeaders {
+			if i > 0 {
+				sb.WriteByte(';')
+			}
+			fmt.Fprintf(&sb, "%s/%d/%d", VerifSlabIDString(h.slabID), h.size, h.count)
+		}
+		sb.WriteString("}{")
+		for i, c := range x.childrenCountSum {
+			if i > 0 {
+				sb.WriteByte(',')
+			}
+			fmt.Fprintf(&sb, "%d", c)
+		}
+		sb.WriteByte('}')
+	case *MapDataSlab:
+		fmt.Fprintf(&sb, "d(%s,%s,%d,%d,%s,%s,%s)",
+			VerifSlabIDString(x.header.slabID), VerifSlabIDString(x.next),
+			x.header.size, uint64(x.header.firstKey),
+			verifBool(x.inlined), verifBool(x.anySize), verifBool(x.collisionGroup))
+		if x.extraData != nil {
+			fmt.Fprintf(&sb, "T(%s,%d,%d)", d.typeInfo(x.extraData.TypeInfo), x.extraData.Count, x.extraData.Seed)
+		}
+		sb.WriteString(d.elements(x.elements))
+	case *MapMetaDataSlab:
+		fmt.Fprintf(&sb, "m(%s,%d,%d)", VerifSlabIDString(x.header.slabID), x.header.size, uint64(x.header.firstKey))
+		if x.extraData != nil {
+			fmt.Fprintf(&sb, "T(%s,%d,%d)", d.typeInfo(x.extraData.TypeInfo), x.extraData.Count, x.extraData.Seed)
+		}
+		sb.WriteByte('{')
+		for i, h := range x.childrenHeaders {
+			if i > 0 {
+				sb.WriteByte(';')
+			}
+			fmt.Fprintf(&sb, "%s/%d/%d", VerifSlabIDString(h.slabID), h.size, uint64(h.firstKey))
+		}
+		sb.WriteByte('}')
+	case *StorableSlab:
+		fmt.Fprintf(&sb, "V(%s,%s)", VerifSlabIDString(x.slabID), d.sized(x.storable))
+	case nil:
+		sb.WriteString("nil")
+	default:
+		fmt.Fprintf(&sb, "?(%T)", s)
+	}
+	return sb.String()
+}
+
+func (d *VerifDescribe) elements(es elements) string {
+	var sb strings.Builder
+	switch x := es.(type) {
+	case *hkeyElements:
+		fmt.Fprintf(&sb, "H(%d,%d){", x.level, x.size)
+		for i, k := range x.hkeys {
+			if i > 0 {
+				sb.WriteByte(',')
+			}
+			fmt.Fprintf(&sb, "%d", uint64(k))
+		}
+		sb.WriteString("}[")
+		for i, e := range x.elems {
+			if i > 0 {
+				sb.WriteByte(' ')
+			}
+			sb.WriteString(d.element(e))
+		}
+		sb.WriteByte(']')
+	case *singleElements:
+		fmt.Fprintf(&sb, "L(%d,%d)[", x.level, x.size)
+		for i, e := range x.elems {
+			if i > 0 {
+				sb.WriteByte(' ')
+			}
+			sb.WriteString(d.element(e))
+		}
+		sb.WriteByte(']')
+	case nil:
+		sb.WriteString("nil")
+	default:
+		fmt.Fprintf(&sb, "?(%T)", es)
+	}
+	return sb.String()
+}
+
+func (d *VerifDescribe) element(e element) string {
+	switch x := e.(type) {
+	case *singleElement:
+		return fmt.Sprintf("S(%d,%s,%s)", x.size, d.sized(x.key), d.sized(x.value))
+	case *inlineCollisionGroup:
+		return fmt.Sprintf("I(%d,%s)", x.Size(), d.elements(x.elements))
+	case *externalCollisionGroup:
+		return fmt.Sprintf("X(%d,%s)", x.size, VerifSlabIDString(x.slabID))
+	case nil:
+		return "nil"
+	}
+	return fmt.Sprintf("?(%T)", e)
+}
+
+// VerifChildSlabIDs returns the IDs of the slabs a slab's own fields refer to as tree children
+// (children of index slabs, external collision groups); element references are not included.
+func VerifChildSlabIDs(s Slab) []SlabID {
+	var ids []SlabID
+	switch x := s.(type) {
+	case *ArrayMetaDataSlab:
+		for _, h := range x.childrenHeaders {
+			ids = append(ids, h.slabID)
+		}
+	case *MapMetaDataSlab:
+		for _, h := range x.childrenHeaders {
+			ids = append(ids, h.slabID)
+		}
+	case *MapDataSlab:
+		ids = verifExternalGroups(x.elements, ids)
+	}
+	return ids
+}
+
+func verifExternalGroups(es elements, ids []SlabID) []SlabID {
+	switch x := es.(type) {
+	case *hkeyElements:
+		for _, e := range x.elems {
+			switch g := e.(type) {
+			case *externalCollisionGroup:
+				ids = append(ids, g.slabID)
+			case *inlineCollisionGroup:
+				ids = verifExternalGroups(g.elements, ids)
+			}
+		}
+	}
+	return ids
+}
+
+// VerifSlabNext returns the right-sibling link of a data slab (undefined otherwise).
+func VerifSlabNext(s Slab) SlabID {
+	switch x := s.(type) {
+	case *ArrayDataSlab:
+		return x.next
+	case *MapDataSlab:
+		return x.next
+	}
+	return SlabIDUndefined
+}
+
+// VerifSlabIsRoot reports whether the slab carries extra data (is the root of a value).
+func VerifSlabIsRoot(s Slab) bool {
+	switch x := s.(type) {
+	case *ArrayDataSlab:
+		return x.extraData != nil
+	case *ArrayMetaDataSlab:
+		return x.extraData != nil
+	case *MapDataSlab:
+		return x.extraData != nil
+	case *MapMetaDataSlab:
+		return x.extraData != nil
+	}
+	return false
+}
